@@ -2,6 +2,7 @@
 //!   nexrad-mc <Cxx> <quick|thorough>
 //!   nexrad-mc <Cxx> --replay <path>
 #![allow(clippy::type_complexity)]
+#![allow(dead_code)]
 
 mod core;
 mod enc;
@@ -15,7 +16,13 @@ type ReplayFn = fn(&'static Ctx, &Value);
 
 fn table() -> Vec<(&'static str, RunFn, ReplayFn)> {
     vec![
+        ("C13", props::c13::run as RunFn, props::c13::replay as ReplayFn),
+        ("C12", props::c12::run as RunFn, props::c12::replay as ReplayFn),
+        ("C11", props::c11::run as RunFn, props::c11::replay as ReplayFn),
+        ("C10", props::c10::run as RunFn, props::c10::replay as ReplayFn),
         ("C09", props::c09::run as RunFn, props::c09::replay as ReplayFn),
+        ("C16", props::c16::run as RunFn, props::c16::replay as ReplayFn),
+        ("C08", props::c08::run as RunFn, props::c08::replay as ReplayFn),
     ]
 }
 
